@@ -106,19 +106,19 @@ func byteSpecArg(s *slip.Scope, arg slip.Object, depth int) (size, pos int) {
 		slip.TypePanic(s, depth, "bytespec", arg, "cons")
 	}
 	var num slip.Fixnum
-	if num, ok = spec[0].(slip.Fixnum); ok {
+	if num, ok = spec[0].(slip.Fixnum); ok && 0 <= num {
 		size = int(num)
 	} else {
-		slip.TypePanic(s, depth, "size", spec[0], "fixnum")
+		slip.TypePanic(s, depth, "size", spec[0], "non-negative fixnum")
 	}
 	var tail slip.Tail
 	if tail, ok = spec[1].(slip.Tail); !ok {
 		slip.TypePanic(s, depth, "bytespec", arg, "cons")
 	}
-	if num, ok = tail.Value.(slip.Fixnum); ok {
+	if num, ok = tail.Value.(slip.Fixnum); ok && 0 <= num {
 		pos = int(num)
 	} else {
-		slip.TypePanic(s, depth, "position", tail.Value, "fixnum")
+		slip.TypePanic(s, depth, "position", tail.Value, "non-negative fixnum")
 	}
 	return
 }
